@@ -22,7 +22,8 @@ MANIFEST = {
 }
 COMPONENTS = list(range(0, 13)) + [99, 100, 101] + list(range(2013, 2023))
 PRODUCTS = {'OpenSSH': 'OpenSSH', 'Dropbear': 'Dropbear SSH', 'libssh': 'libssh'}
-MUST = ['9.9', '10.0', '10.1', '9.10', '7.9', '7.10', '0.7.0', '0.10.6', '0.9.6', '0.10.0', '2022.83', '2019.78', '0.53', '0.53.1', '8.9', '8.10', '1.2.2', '2.3.0', '2.10', '2.9', '100.0', '99.9', '12.0', '2.0']
+MUST = ['9.9', '10.0', '10.1', '9.10', '7.9', '7.10', '0.7.0', '0.10.6', '0.9.6', '0.10.0', '2022.83', '2019.78', '0.53', '0.53.1', '8.9', '8.10', '1.2.2', '2.3.0', '2.10', '2.9', '100.0', '99.9', '12.0', '2.0',
+        '8.04', '8.4', '8.5', '08.9', '008.10', '0010.0', '9.09', '0.07.1', '0.010.6', '2020.081', '00.0', '0.00']   # decimal numbers may be written with leading zeros
 
 
 def version_set(seed, n=400):
@@ -31,7 +32,7 @@ def version_set(seed, n=400):
     seen = set(s)
     while len(s) < n:
         k = rng.choice([1, 2, 2, 2, 3, 3, 4])
-        v = '.'.join(str(rng.choice(COMPONENTS)) for _ in range(k))
+        v = '.'.join(('0' * rng.choice([0, 0, 0, 0, 0, 1, 2])) + str(rng.choice(COMPONENTS)) for _ in range(k))
         if v not in seen:
             seen.add(v)
             s.append(v)
@@ -173,6 +174,8 @@ def run_timeframe(c):
     vs = [v for v in version_set(c['vseed']) if len(vt(v)) == 2][:80]
     for _ in range(400):
         a, b = rng.sample(vs, 2)
+        if vt(a) == vt(b):
+            continue   # two spellings of the same number (leading zeros): either may be kept
         for prefix, prod in (('', Product.OpenSSH), ('d', Product.DropbearSSH)):
             tf = Timeframe()
             tf.update([prefix + a, prefix + a]).update([prefix + b, prefix + b])
